@@ -410,7 +410,7 @@ def check_under_mode(case, cfg, mode):
             viol.append({"kind": "report-without-transactions", "detail": {"deviations": labels, "stdout_tail": r["stdout"][-300:]}})
     else:
         try:
-            j = json.loads(r["stdout"][r["stdout"].index("\n{"):])
+            j = proc.json_document(r["stdout"])
         except Exception as e:  # noqa
             j = None
             viol.append({"kind": "up-json-failed", "detail": {"deviations": labels, "exit": r["exit"], "stderr_tail": r["stderr"][-400:], "stdout_tail": r["stdout"][-300:]}})
@@ -437,7 +437,7 @@ def check_under_mode(case, cfg, mode):
                 rm = proc.run_cli(["up", "--migrate", "--format", "json", "-v"], cwd=mig)
                 evals += 1
                 try:
-                    jm = json.loads(rm["stdout"][rm["stdout"].index("\n{"):])
+                    jm = proc.json_document(rm["stdout"])
                     got_m = {m["name"]: {"category": m["category"], "subcategory": m["subcategory"], "tags": sorted(m["tags"]), "total": m["total"], "count": m["count"],
                                          "raw": m.get("raw_descriptions", {})} for m in jm["merchants"]}
                 except Exception as e:  # noqa
